@@ -1,7 +1,7 @@
 (* C02: the folded double-precision operations are the IEEE-754 binary64 operations (Flocq's formalisation, which is also the
    meaning SMT-LIB gives to fp.add etc.), and computing a single-precision operation in double precision and rounding the
    result to single precision is the single-precision operation (double rounding is innocuous for + - * / sqrt). *)
-From Coq Require Import ZArith Reals Floats Bool Lia.
+From Coq Require Import ZArith Reals Floats Bool Lia Lra.
 From Flocq Require Import Core BinarySingleNaN Double_rounding.
 Require Flocq.IEEE754.PrimFloat.
 Require Import CV.Model.FPFold.
@@ -100,3 +100,12 @@ Qed.
 
 Theorem float_sqrt_via_double x : is32 x -> rnd32 (rnd64 (R_sqrt.sqrt x)) = rnd32 (R_sqrt.sqrt x).
 Proof. intros Hx. apply (round_round_sqrt_FLT radix2 (-149) 24 (-1074) 53); auto; lia. Qed.
+
+(* the hypotheses are satisfiable: 1.5 and 2^24 + 2 are single-precision reals (the second is the kind of operand for which
+   a sum computed in double precision is not a single-precision real before the final rounding) *)
+Example is32_example : is32 (3 / 2)%R /\ is32 16777218%R.
+Proof.
+  split.
+  - apply (FLT_spec radix2 (-149) 24 _ (Float radix2 3 (-1))); [unfold F2R; cbn; lra|cbn; lia|cbn; lia].
+  - apply (FLT_spec radix2 (-149) 24 _ (Float radix2 8388609 1)); [unfold F2R; cbn; lra|cbn; lia|cbn; lia].
+Qed.
